@@ -337,7 +337,18 @@ func (rpc *RPC) LogValue() slog.Value {
 // further (e.g. Message data is bigger than the RPC limit), then it will be
 // returned as an oversized RPC. The caller should filter out oversized RPCs.
 func (rpc *RPC) split(limit int) iter.Seq[RPC] {
-	return func(yield func(RPC) bool) {
+	return func(yieldAny func(RPC) bool) {
+		// Never hand out an RPC that carries nothing. Without this, the RPC
+		// under construction is yielded while still empty whenever the first
+		// element of a group does not fit the limit by itself.
+		yield := func(r RPC) bool {
+			if len(r.Publish) == 0 && len(r.Subscriptions) == 0 && r.Control.Size() == 0 &&
+				r.Partial == nil && r.TestExtension == nil {
+				return true
+			}
+			return yieldAny(r)
+		}
+
 		nextRPC := RPC{from: rpc.from}
 
 		{
